@@ -80,8 +80,10 @@ func buildTranscoder(cfg cfgSpec, handler, unknown http.Handler) (*vanguard.Tran
 	if cfg.Aux {
 		// a second service on the same Transcoder whose type resolver knows nothing (not even the well-known types):
 		// codecs are built per service, with the service's resolver
+		// (and whose backend speaks Connect, so that unary calls to it meet an un-enveloped backend whatever the
+		// first service's target protocols are)
 		svcs = append(svcs, vanguard.NewServiceWithSchema(verifSchema().Services().ByName("Aux"), handler,
-			append(serviceOptions(cfg), vanguard.WithTypeResolver(new(protoregistry.Types)))...))
+			append(serviceOptions(cfg), vanguard.WithTargetProtocols(vanguard.ProtocolConnect), vanguard.WithTypeResolver(new(protoregistry.Types)))...))
 	}
 	return vanguard.NewTranscoder(svcs, transcoderOptions(unknown)...)
 }
@@ -737,7 +739,7 @@ func (rn *run) restRequestLine(query url.Values) (string, string, url.Values) {
 
 func detectServerForm(req *http.Request) (form, codec string) {
 	ct := req.Header.Get("Content-Type")
-	isRPCPath := strings.HasPrefix(req.URL.Path, svcPrefix)
+	isRPCPath := strings.HasPrefix(req.URL.Path, svcPrefix) || strings.HasPrefix(req.URL.Path, "/verif.v1.Aux/")
 	switch {
 	case ct == "application/grpc":
 		return "grpc", "proto"
